@@ -77,6 +77,15 @@ Theorem C08gen_inner_scope_refuted :
 Proof. exact inner_scope_refuted. Qed.
 Print Assumptions C08gen_inner_scope_refuted.
 
+(** the verdict the correspondence driver prints per variant ([inner_scope_ok], extracted) decides exactly the
+    statement above: where it is false the inner struct names a parameter it does not declare *)
+Theorem C08gen_inner_scope_decided : forall it v,
+  inner_scope_ok it v = true <->
+  (forall P f, In P (type_params (gi_params it)) -> In f (gv_fields v) -> uses P (gf_ty f) = true ->
+               In P (type_params (gi_params (inner_struct it v)))).
+Proof. exact inner_scope_ok_spec. Qed.
+Print Assumptions C08gen_inner_scope_decided.
+
 (** ** computed instances *)
 (** the F9 witness [enum G<T, U> where T: Into<U> { X(T), Y(U) }]: neither inner struct keeps the predicate *)
 Example C08gen_f9 :
